@@ -170,11 +170,12 @@ def bn_spec(
     col_kinds=COL_KINDS,
     max_cells=5000,
     connected=False,
+    cap_cards=True,
 ):
     g = draw(dag_spec(min_nodes, max_nodes, name_kinds, max_parents, latents, connected))
     nodes = g["nodes"]
     n = len(nodes)
-    hi = max_card if n <= 4 else min(max_card, 3)
+    hi = max_card if (n <= 4 or not cap_cards) else min(max_card, 3)
     card = {}
     states = {}
     cells = 1
